@@ -78,9 +78,6 @@ def tokS (t : Token) : String :=
 def errS : Err → String
   | .parse l c => s!"ERR:ParseException:{l}:{c}"
   | .block l c => s!"ERR:BlockParseException:{l}:{c}"
-  | .unhashableKey => "ERR:TypeError:unhashable"
-  | .badEscape .illegalCodepoint => "ERR:UnicodeDecodeError:illegal"
-  | .badEscape .unknownName => "ERR:UnicodeDecodeError:unknown"
   | .notInNoWs => "ERR:AttributeError"
   | .fuel => "ERR:FUEL"
 
